@@ -55,7 +55,7 @@ Hidden(s) ==
   \cup UNION {{t \in DoKBody(s, i) : t.exec = s.exec} \cup DoKClose(s, i) \cup DoKKill9(s, i) \cup DoKEnd(s, i)
               \cup (IF s.child # "running" THEN DoKTerm(s, i) \cup DoKInt(s, i) ELSE {})
               \cup DoTransBody(s, i) \cup DoTransCommit(s, i) \cup DoKillBodyBasic(s, i)
-              \cup DoNoopBody(s, i) \cup DoStartBody(s, i) \cup {t \in DoStopBody(s, i) : t.exec = s.exec} \cup DoStopKill(s, i) : i \in HIdx(s)}
+              \cup DoNoopBody(s, i) \cup DoStartBody(s, i) \cup {t \in DoStopBody(s, i) : t.exec = s.exec} \cup DoStopPush(s, i) \cup DoStopKill(s, i) \cup DoKUnblock(s, i) : i \in HIdx(s)}
 (* a panic is recorded when the process has died, which is later than the panic itself *)
 ObsPanic(s) ==
   {t \in DoLPoll(s) \cup DoReaperStart(s) \cup UNION {DoStopBody(s, i) \cup DoKBody(s, i) : i \in HIdx(s)} : t.exec = "panicked"}
